@@ -3,3 +3,8 @@ import CobraModel.Model.DictList
 import CobraModel.Lemmas.DictList
 import CobraModel.Props.C15
 import CobraModel.Driver.DL
+import CobraModel.Gen.GprTables
+import CobraModel.Model.GPR
+import CobraModel.Lemmas.GPR
+import CobraModel.Props.C08
+import CobraModel.Driver.GPR
